@@ -90,6 +90,13 @@ def cases(seed, tier, shard, nshards):
         r = common.rng_for(seed, PROP, i)
         template = r.choice(TEMPLATES)
         d = gen_doc(r, template)
+        if '$title' in template and r.random() < 0.4:
+            # units whose titles differ only in characters outside ASCII, or consist of such characters only: still different units
+            lvl = r.choice([1, 1, 2])
+            for k, ttl in enumerate(r.choice([['R\u00e9sum\u00e9', 'Resume'], ['\u03a9\u03a9\u03a9', '\u0416\u0416\u0416', '\u4e2d\u6587'], ['na\u00efve Ab', 'naive Ab'],
+                                               ['Ab \u2014 c', 'Ab - c', 'Ab c']])):
+                d['secs'].append({'t': 'sec', 'level': lvl, 'star': False, 'title': [{'t': 'text', 'words': [ttl]}], 'subs': [], 'label': None, 'toc': None,
+                                  'c': [{'t': 'para', 'c': [{'t': 'text', 'words': ['Wq%dx' % (9800 + k)]}]}]})
         setup_ = r.choice(SETUPS)
         # footnotes with identical text in the first and the last unit: each must still be printed (equal content is not the same footnote)
         same = r.randint(2, 3) if r.random() < 0.3 else 0
@@ -139,7 +146,7 @@ def collect_inlines(items, u, target='body'):
     for n in items:
         t = n['t']
         if t == 'text':
-            u[target].extend(n['words'])
+            u[target].extend(w_ for w_ in n['words'] if MARK_RE.fullmatch(w_))
         elif t in ('fontcmd', 'fontdecl', 'box'):
             collect_inlines(n['c'], u, target)
         elif t == 'footnote':
